@@ -699,7 +699,12 @@ def build_inventory(repo):
                 args = [x for x in args if x]
                 errval = ''.join(args[1]) if len(args) >= 2 else 'nullptr'
                 break
-        eps.append(dict(name=f['name'], errval=errval if errval is not None else 'manual', interruptible=f['id'] in reaches_poll, fid=f['id']))
+        eps.append(dict(name=f['name'], errval=errval if errval is not None else 'manual', interruptible=f['id'] in reaches_poll, fid=f['id'],
+                        delegates=[c[0] for c in f['calls'] if c[1] == 'u' and re.match(r'GEOS\w*_r$', c[0]) and c[0] != f['name']]))
+    byn = {e['name']: e for e in eps}
+    for e in eps:         # a wrapper that only forwards to another entry point returns that one's error value
+        if e['errval'] == 'manual' and len(set(e['delegates'])) == 1 and byn.get(e['delegates'][0], {}).get('errval') not in (None, 'manual'):
+            e['errval'] = byn[e['delegates'][0]]['errval']
     return dict(sites=sites, catches=catches, chain=chain, entries=eps, funcs=funcs, edges=edges, nfiles=len(files), nfuncs=len(funcs),
                 reaches_poll=reaches_poll, wall=time.time() - t0, closure=closure)
 
@@ -768,14 +773,14 @@ OP_ENTRY = {  # harness op -> (C API entry point whose return value is observed,
     'prep_disjoint': ('GEOSPreparedDisjoint_r', C_), 'prep_relate': ('GEOSPreparedRelate_r', S_), 'distance': ('GEOSDistance_r', D_), 'hausdorff': ('GEOSHausdorffDistance_r', D_),
     'minclearance': ('GEOSMinimumClearance_r', '2'), 'area': ('GEOSArea_r', D_),
 }
-CODE_RE = re.compile(r'^([AC])(m?)(f?)p(\d+)(w?)(d?)(?:(r?)n(\d+)(F?)(W?))?(L?)(?:s(\d+))?$')
+CODE_RE = re.compile(r'^([AC])(m?)(f?)p(\d+)(w?)(d?)(?:(r?)n(\d+)(F?)(W?))?(L?)(v?)(?:s(\d+))?$')
 
 
 def parse_code(c):
     m = CODE_RE.match(c)
     if not m: return None
     return dict(out=m.group(1), m=bool(m.group(2)), f=bool(m.group(3)), p=int(m.group(4)), w=bool(m.group(5)), d=bool(m.group(6)), r=bool(m.group(7)),
-                n=int(m.group(8)) if m.group(8) is not None else None, F=bool(m.group(9)), W=bool(m.group(10)), L=bool(m.group(11)), s=int(m.group(12)) if m.group(12) is not None else None)
+                n=int(m.group(8)) if m.group(8) is not None else None, F=bool(m.group(9)), W=bool(m.group(10)), L=bool(m.group(11)), v=bool(m.group(12)), s=int(m.group(13)) if m.group(13) is not None else None)
 
 
 def parse_out(line):
@@ -800,6 +805,7 @@ def parse_out(line):
 
 def choose_ks(N, cap, rng):
     if N <= cap: return list(range(1, N + 1))
+    if cap < 120: return sorted(set(1 + (j * (N - 1)) // max(1, cap - 1) for j in range(cap)))
     ks = set(range(1, 41)) | set(range(N - 39, N + 1))
     m = cap - len(ks) - 20
     for j in range(m): ks.add(1 + (j * (N - 1)) // max(1, m - 1))
@@ -886,7 +892,7 @@ def big_cases(rng, quick):
     return out
 
 
-def shrink_case(case, still_fails, budget=24):
+def shrink_case(case, still_fails, budget=24, deadline=None):
     """drop components / thin out vertices of A and B while the failure persists (best effort)"""
     def variants(g):
         t, v = g
@@ -908,7 +914,7 @@ def shrink_case(case, still_fails, budget=24):
             if cur[which] is None: continue
             for g2 in variants(cur[which]):
                 budget -= 1
-                if budget <= 0: break
+                if budget <= 0 or (deadline and time.time() > deadline): budget = 0; break
                 cand = dict(cur); cand[which] = g2
                 try:
                     if still_fails(cand): cur = cand; changed = True; break
@@ -1012,9 +1018,9 @@ def run(ctx):
         dist['N'][b] = dist['N'].get(b, 0) + 1
         if d.get('nocb') == 'E':
             dist['skipped']['baseline-error'] = dist['skipped'].get('baseline-error', 0) + 1; ctx.count(('count', lines1[i]), False); continue
-        if d.get('nd') == '1':
-            dist['skipped']['nondeterministic-baseline:' + c['op']] = dist['skipped'].get('nondeterministic-baseline:' + c['op'], 0) + 1; ctx.count(('count', lines1[i]), False); continue
-        ks = choose_ks(d['N'], cap if not c.get('big') else 4, ctx.rng)
+        if d.get('nd') == '1':       # results vary between identical never-interrupted calls: the harness compares against the SET of such results
+            dist.setdefault('self-varying', {})[c['op']] = dist.setdefault('self-varying', {}).get(c['op'], 0) + 1
+        ks = choose_ks(d['N'], cap if not c.get('big') else (2 if ctx.quick else 8), ctx.rng)
         plan.append((i, c, ks))
     # ---------------- phase 2: fault enumeration, one child process per case
     def work(item):
@@ -1165,7 +1171,7 @@ def run(ctx):
     # ---------------- checkpoint sites reached, and the static call graph against what was observed
     res = sym.resolve([('g', o) for o in all_sites])
     static_sites = {(os.path.basename(s['file']), s['line']): s for s in inv['sites']}
-    reached = {}
+    reached = {}; site_of_off = {}
     for o in all_sites:
         fr = res[('g', o)]
         hit = None
@@ -1176,7 +1182,11 @@ def run(ctx):
         if hit is None:
             ctx.broken.append(dict(kind='inventory', name='unknown checkpoint site', detail='a poll was observed from %s which is not in the generated site list' % (fr[:2],)))
         else:
-            reached[(hit['file'], hit['line'])] = reached.get((hit['file'], hit['line']), 0) + 1
+            site_of_off[o] = (hit['file'], hit['line']); reached.setdefault((hit['file'], hit['line']), 0)
+    for i, c, ks in plan:
+        d1 = parse_out((results[i][1] or '').split('\n')[0])
+        for sx in set(site_of_off.get(int(x, 16)) for x in (d1['site_list'] if d1 else [])) - {None}:
+            reached[sx] += 1
     # an observed (entry point, site) pair must be statically reachable
     fid_of_site = {}
     for f in inv['funcs']:
@@ -1208,6 +1218,7 @@ def run(ctx):
     for fid, a in sorted(agg.items()):
         ctx.known_hit(a['k'], '%s [observed: %d interrupted calls through %s]' % (a['k']['what'], a['n'], ','.join(sorted(a['ops']))))
     seen_kinds = {}
+    shrink_deadline = time.time() + (60 if ctx.quick else 300)
     for v in viol:
         kk = (v['case']['op'], v['kind'])
         seen_kinds[kk] = seen_kinds.get(kk, 0) + 1
@@ -1215,7 +1226,7 @@ def run(ctx):
             continue
         c = v['case']
         shr = None
-        if isinstance(v['k'], int) and not ctx.replay:
+        if isinstance(v['k'], int) and not ctx.replay and not c.get('big') and time.time() < shrink_deadline:
             def still(cand, kind=v['kind'], k0=v['k']):
                 rc2, so2, se2 = run_proc([hexe], case_line(cand, '1-40'), env, 300)
                 d2 = parse_out(so2.split('\n')[0] if so2 else '')
@@ -1232,7 +1243,7 @@ def run(ctx):
                     ls = parse_lsan(se2); tots = [ls[x]['total'] for x in sorted(ls)]
                     return any(b > a for a, b in zip(tots, tots[1:]))
                 return False
-            shr = shrink_case(c, still)
+            shr = shrink_case(c, still, deadline=min(shrink_deadline, time.time() + 25))
         line = case_line(shr or c, rle([v['k']]) if isinstance(v['k'], int) and not shr else '1-40')
         rp = os.path.join(ctx.work, 'replay_%s_%s.txt' % (c['op'], re.sub(r'\W+', '_', str(v['k']))))
         open(rp, 'w').write(line + '\n')
@@ -1246,6 +1257,12 @@ def run(ctx):
     for c in cases[:3]:
         ctx.sample('%s p1=%r p2=%d A=%s' % (c['op'], c['p1'], c['p2'], wkt(c['A'])[:200]))
     ctx.notes['violating_steps'] = len(viol)
+    byent = {}
+    for v in viol:
+        byent.setdefault(v['kind'], {}).setdefault(OP_ENTRY[v['case']['op']][0], 0)
+        byent[v['kind']][OP_ENTRY[v['case']['op']][0]] += 1
+    ctx.notes['violating_steps_by_kind_and_entry'] = byent
+    ctx.notes['known_finding_steps'] = {fid: dict(steps=a['n'], entries=sorted(a['ops'])) for fid, a in agg.items()}
 
 
 def jcase(c):
